@@ -133,7 +133,7 @@ func parseProperType(data []byte, v reflect.Value) bool {
 	s := goutil.BytesToString(data)
 	switch v.Kind() {
 	case reflect.String:
-		v.SetString(s)
+		v.SetString(string(data)) // copy: data is a view of a reused receive buffer
 	case reflect.Bool:
 		bol, err := strconv.ParseBool(s)
 		if err != nil {
@@ -162,7 +162,7 @@ func parseProperType(data []byte, v reflect.Value) bool {
 		if v.Type().Elem().Kind() != reflect.Uint8 {
 			return false
 		}
-		v.SetBytes(data)
+		v.SetBytes(append([]byte(nil), data...)) // copy: data is a view of a reused receive buffer
 	case reflect.Invalid:
 		return true
 	default:
